@@ -314,7 +314,7 @@ func c20DistinctSettings(w *World, r *Report) {
 		}
 		var vars []string
 		for _, c := range CallsIn(f, true, "os.Getenv", "os.LookupEnv") {
-			if s, ok := constString(c.Common().Args[0]); ok {
+			if s, ok := constString(unhelp(c.Common().Args[0])); ok {
 				vars = append(vars, s)
 			} else {
 				vars = append(vars, "<non-constant>")
